@@ -102,6 +102,23 @@ def parseSpec (peer own : Array WireFrame) (spec : String) : Option WireFrame :=
 
 def boolStr (b : Bool) : String := if b then "1" else "0"
 
+/-- byte `i` of the position-dependent test pattern `seed` (top byte of a multiplicative hash of the
+    position): compact op encoding for MiB-sized payloads whose content must reveal a dropped,
+    duplicated or reordered chunk. The harness computes the same function (`patByte`). -/
+def patByte (seed i : Nat) : UInt8 :=
+  UInt8.ofNat (((i + seed) * 2654435761 % 4294967296) / 16777216)
+
+/-- payload syntax of this engine: `pat:<n>:<seed>:<off>` (bytes off .. off+n-1 of pattern `seed`),
+    else the common syntax (`-`, hex, `fill:<n>:<byte>`, joined by `+`) -/
+def parsePayloadX (s : String) : Option Bytes :=
+  match s.splitOn ":" with
+  | ["pat", n, seed, off] => do
+      let n ← n.toNat?
+      let seed ← seed.toNat?
+      let off ← off.toNat?
+      pure ((List.range n).map (fun j => patByte seed (off + j)))
+  | _ => parsePayload s
+
 def step (w : World) (toks : List String) : World × String :=
   match toks with
   | ["new"] => ({}, "ok")
@@ -110,14 +127,14 @@ def step (w : World) (toks : List String) : World × String :=
     | some s, some k, some iv => (setEp w e (s.setKey k iv), "ok")
     | _, _, _ => (w, "bad-op")
   | ["send", e, fl, pl] =>
-    match getEp w e, fl.toNat?, parsePayload pl with
+    match getEp w e, fl.toNat?, parsePayloadX pl with
     | some s, some fl, some d =>
       match s.sendFrame d fl with
       | .error er => (w, errStr er)
       | .ok (s', f) => (emit (setEp w e s') e [f], "ok " ++ showFrame f)
     | _, _, _ => (w, "bad-op")
   | ["write", e, pl] =>
-    match getEp w e, parsePayload pl with
+    match getEp w e, parsePayloadX pl with
     | some s, some d =>
       match s.writeMessage d with
       | .error er => (w, errStr er)
@@ -228,6 +245,31 @@ def step (w : World) (toks : List String) : World × String :=
       | .error er => (w, errStr er)
       | .ok s => (setEp w e s, "ok")
     | none => (w, "bad-op")
+  | ["import", e, blobHex, addr] =>
+    -- the stream is rebuilt around a connection whose remote address is `addr`
+    match (if blobHex == "-" then some [] else unhexAux blobHex.toList), parsePayload addr with
+    | some blob, some a =>
+      match importBlobAround a blob with
+      | .error er => (w, errStr er)
+      | .ok s => (setEp w e s, "ok")
+    | _, _ => (w, "bad-op")
+  | ["connaddr", e, addr] =>
+    -- NewStream(conn): the remote address of the connection, as the stream records it
+    match getEp w e, parsePayload addr with
+    | some s, some a => (setEp w e { s with peerAddr := a }, "ok")
+    | _, _ => (w, "bad-op")
+  | ["setpeer", e, addr] =>
+    match getEp w e, parsePayload addr with
+    | some s, some a => (setEp w e { s with peerAddr := a }, "ok")
+    | _, _ => (w, "bad-op")
+  | ["setauth", e, on] =>
+    match getEp w e with
+    | some s => (setEp w e { s with authenticated := on == "1" }, "ok")
+    | _ => (w, "bad-op")
+  | ["ident", e] =>
+    match getEp w e with
+    | some s => (w, s!"ok auth={boolStr s.authenticated} peer={showBytes s.peerAddr}")
+    | _ => (w, "bad-op")
   | ["state", e] =>
     match getEp w e with
     | some s => (w, s!"ok enc={boolStr s.encrypted} key={boolStr s.key.isSome} ectr={s.encCtr} dctr={s.decCtr}")
